@@ -236,7 +236,7 @@ pub fn campaign(
         }
         if let Some((at, m)) = o.failed_at {
             let sig = format!("{sig_prefix}|{}", m.sig);
-            let small = if report.is_known(&sig) {
+            let small = if !report.should_shrink(&sig) {
                 o.ops[..=at.min(o.ops.len() - 1)].to_vec()
             } else {
                 shrink(&o.ops[..=at.min(o.ops.len().saturating_sub(1))], o.open_cfg, &m.sig, 150)
@@ -278,9 +278,14 @@ pub fn campaign(
             }
             cfg.max_regions = rng.range(1, 12);
             let o = run_history(&mut rng, &cfg, nops, "hist");
+            if let Some((_, m)) = &o.failed_at
+                && !report.is_known(&format!("{sig_prefix}|{}", m.sig))
+            {
+                report.note_failure();
+            }
             outs.push((h, o));
             h += 1;
-            if report.violation_count() > 5 {
+            if report.failures_seen() >= 6 {
                 break;
             }
         }
